@@ -1,1 +1,14 @@
-fn main() { println!("{:?}", falcon_rust::verif::felt_new(-12289)); }
+//! `drive <what> --tier quick|thorough --seed N --out DIR [...]`: exercise the real library and record traces.
+use harness::common::{install_panic_hook, Args};
+fn main() {
+    install_panic_hook();
+    let args = Args::from_env();
+    let what = args.v.get(1).cloned().unwrap_or_default();
+    match what.as_str() {
+        "c02" => harness::d_verify::c02(&args),
+        _ => {
+            eprintln!("unknown driver {}", what);
+            std::process::exit(2);
+        }
+    }
+}
